@@ -39,6 +39,12 @@ CLAIMED = {
          "empty-diagonal matrices on one pattern for arbitrary callback values (this discharges the contract the fold assumes). Distance harness: for "
          "ALL unit quaternions the sign-folded distance equals acos|p.q|, is symmetric and invariant under q->-q (staged lemmas: norms, Cauchy-Schwarz, "
          "acos axioms).", "§5 C04"),
+ "C02": ("Composed run above the compiled geometry: direction stub -> real position assembly, full-sphere stub -> real antipode fold, both into the "
+         "real FullGrid._get_N_N / get_full_* / get_total_volumes. For n_b<=3, n_o<=3, n_t in {2,3} (<=18 cells; thorough <=36), every direction "
+         "pattern and every antipodally invariant rotation pattern, and ALL positive geometry values, radii and factors f: every entry of the "
+         "three n x n matrices equals the closed form of the statement (position quantity x f / f^2 for same rotation, folded rotation quantity for "
+         "same position, zero otherwise), symmetric, empty diagonal, stored entries > 0, identical indices/indptr and coo order for the three, "
+         "volume_n = V_pos[n div n_b] * V_rot[n mod n_b] * f^3.", "§5 C02"),
 }
 NA = {
  "C03": "Claim is that Qhull's SphericalVoronoi regions/areas are the true nearest-neighbour cells: compiled geometry with no encodable source; a stub would assume the property (the symmetric assembly around it is verified under C04).",
